@@ -198,13 +198,13 @@ func init() {
 		Not: "Byte-level correctness of any encoder/decoder, Len()==bytes emitted, equality after a round trip and RFC well-formedness of emitted messages are value-level and not decided.",
 		Run: func(c *Ctx) {
 			c.ruleRatchets("C04")
-			c.ruleDecodeProduces("E4.decode-produces", []string{"pkg/packet/bgp"}, 200)
+			c.ruleDecodeProduces("E4.decode-produces", []string{"pkg/packet/bgp"}, 150)
 			c.ruleAttrTables()
 			c.rulePurity("E2d.pure", []string{"pkg/packet/bgp"}, 500)
 			c.ruleEmittedLength("E3.emitted-length", []string{"pkg/packet/bgp"}, 3)
 			c.ruleAddPathDirection("E6.addpath-direction")
-			c.ruleGuardOrder("E3.guard-order", []string{"pkg/packet/bgp"}, 3)
-			c.ruleDecodedFields("E3.decoded-fields", []string{"pkg/packet/bgp"}, 150)
+			c.ruleGuardOrder("E3.guard-order", []string{"pkg/packet/bgp"}, 2)
+			c.ruleDecodedFields("E3.decoded-fields", []string{"pkg/packet/bgp"}, 110)
 			c.ruleOptionScanAny("E6.option-scan-any")
 		},
 	})
@@ -215,10 +215,10 @@ func init() {
 		Run: func(c *Ctx) {
 			c.ruleRatchets("C05")
 			c.ruleInputImmutable("E2c.input", []string{"pkg/packet/bgp"}, 120)
-			c.ruleNarrowGuard("E5.narrow-guard", []string{"pkg/packet/bgp"}, 3)
+			c.ruleNarrowGuard("E5.narrow-guard", []string{"pkg/packet/bgp"}, 2)
 			c.ruleLoopProgress("E5.loop-progress", []string{"pkg/packet/bgp"}, 30)
 			c.ruleParseExactBody("E6.exact-body")
-			c.ruleDecodedNonNil("E3.decoded-non-nil", []string{"pkg/packet/bgp"}, 6)
+			c.ruleDecodedNonNil("E3.decoded-non-nil", []string{"pkg/packet/bgp"}, 4)
 			c.ruleConstBounds("E5.bounds-ratchet", []string{"pkg/packet/bgp"}, "baselines/bounds.json", 100)
 			c.ruleErrorsChecked("E5.errors-checked", []string{"pkg/packet/bgp"}, errorsDiscardedReviewed, 400)
 			c.ruleErrorExitRatchet("E5.error-exit-ratchet", []string{"pkg/packet/bgp"}, "baselines/errexits.json", 150)
@@ -231,13 +231,13 @@ func init() {
 		Not:  "Crash-freedom and termination of the decoders, and round-trip equality, are value-level and not decided. ZAPI field symmetry is excluded (request and response bodies are directional).",
 		Run: func(c *Ctx) {
 			c.ruleRatchets("C19")
-			c.ruleInputImmutable("E2c.input", []string{"pkg/packet/mrt", "pkg/packet/bmp", "pkg/packet/rtr", "pkg/packet/bfd", "pkg/zebra"}, 60)
+			c.ruleInputImmutable("E2c.input", []string{"pkg/packet/mrt", "pkg/packet/bmp", "pkg/packet/rtr", "pkg/packet/bfd", "pkg/zebra"}, 45)
 			c.ruleDecodeProduces("E4.decode-produces", []string{"pkg/packet/bmp", "pkg/packet/mrt", "pkg/packet/rtr"}, 20)
 			c.ruleSplitters()
-			c.ruleGuardOrder("E3.guard-order", []string{"pkg/zebra", "pkg/packet/mrt", "pkg/packet/bmp", "pkg/packet/rtr", "pkg/packet/bfd"}, 5)
+			c.ruleGuardOrder("E3.guard-order", []string{"pkg/zebra", "pkg/packet/mrt", "pkg/packet/bmp", "pkg/packet/rtr", "pkg/packet/bfd"}, 3)
 			c.ruleMRTRibFamilies()
 			c.ruleDecodedFields("E3.decoded-fields", []string{"pkg/packet/mrt", "pkg/packet/bmp", "pkg/packet/rtr"}, 20)
-			c.ruleLoopProgress("E5.loop-progress", []string{"pkg/packet/mrt", "pkg/packet/bmp", "pkg/packet/rtr", "pkg/packet/bfd", "pkg/zebra"}, 10)
+			c.ruleLoopProgress("E5.loop-progress", []string{"pkg/packet/mrt", "pkg/packet/bmp", "pkg/packet/rtr", "pkg/packet/bfd", "pkg/zebra"}, 6)
 			c.ruleConstBounds("E5.bounds-ratchet", []string{"pkg/packet/mrt", "pkg/packet/bmp", "pkg/packet/rtr", "pkg/packet/bfd", "pkg/zebra"}, "baselines/bounds.json", 20)
 			c.ruleErrorsChecked("E5.errors-checked", []string{"pkg/packet/mrt", "pkg/packet/bmp", "pkg/packet/rtr", "pkg/zebra"}, errorsDiscardedReviewed, 40)
 			c.ruleErrorExitRatchet("E5.error-exit-ratchet", []string{"pkg/packet/mrt", "pkg/packet/bmp", "pkg/packet/rtr", "pkg/packet/bfd", "pkg/zebra"}, "baselines/errexits.json", 30)
